@@ -19,8 +19,9 @@ EXPLANATION = ("D1 scope = is_tenv and bounds in {EXTERIOR, GROUND}, windows thr
                "D4 categories (GROUND first, then by tilt) and nine bridge kinds, bridges with l < 0 skipped; D5 totals over exactly the categories, K = au/a guarded, means "
                "guarded, min/max of the same U; D6 K cannot depend on names")
 DECIDED = ["D1 scope", "D2 terms", "D3 precedence chains", "D4 category tables", "D5 totals, guards, min/max", "D6 independence of names",
-           "D7 accumulation loops end only on iterator exhaustion (no break/return); U overrides reach the indicator unchanged from overrides.walls / overrides.windows"]
-UNDECIDED = ["invariance under reordering (float summation order; first-match lookups)", "'mean between min and max' as a value statement"]
+           "D7 accumulation loops end only on iterator exhaustion (no break/return); U overrides reach the indicator unchanged from overrides.walls / overrides.windows",
+           "D8 no first-match selection over a model list by a test several elements can pass (order independence of what K is computed from)"]
+UNDECIDED = ["invariance under reordering beyond first-match selections (float summation order)", "'mean between min and max' as a value statement"]
 ASSUMPTIONS = ["Wall::area_net = gross area - sum of window areas (checked as provenance only)"]
 LEVEL_TEXT = ("Tables and dependence: the envelope scope is evaluated on all 8 combinations, the two decision tables on all 12 + 9 combinations, every accumulator update and "
               "total is normalised and compared with the statement's terms, precedence chains are compared in order, and guards are read as dominating comparisons. "
